@@ -91,6 +91,11 @@ def step (st : St) (toks : List String) : St × List String :=
       if r > 1 then (st, ["bad-op"]) else
       withShard st sh (fun s => let (s', id) := put cfg s t d (r == 1); (s', s!"put id={id}"))
     | _, _, _ => (st, ["bad-op"])
+  | ["putfail", sh, t, d, r, k] => match t.toNat?, parseHex? d, r.toNat?, k.toNat? with
+    | some t, some d, some r, some k =>
+      if r > 1 then (st, ["bad-op"]) else
+      withShard st sh (fun s => (putFail false cfg s t d (r == 1) k, "putfail id=0"))
+    | _, _, _, _ => (st, ["bad-op"])
   | ["get", sh, id, t] => match id.toNat?, t.toNat? with
     | some id, some t =>
       match sh.toNat? with
